@@ -390,9 +390,10 @@ class Exec:
                     if isinstance(sa, EmptySeq): return k(sb, st2)
                     if isinstance(sb, EmptySeq): return k(sa, st2)
                     res = ops.seq_concat(sa, sb)
+                    st2 = ops.seq_setview_facts(st2, res)
                     if isinstance(a, SRef):
                         r = new_ref()
-                        return k(SRef(("list", res.elem), r), st2.put(r, ListCell(res.elem, res.n, res.arr)))
+                        return k(SRef(("list", res.elem), r), st2.put(r, ListCell(res.elem, res.n, res.arr, res.setview)))
                     return k(res, st2)
             if isinstance(e.op, (ast.BitOr, ast.Sub, ast.BitAnd)) and not isinstance(a, SPrim):
                 try:
@@ -418,7 +419,7 @@ class Exec:
     def ev_ListComp(self, e, st, k):
         def got(sq, st2):
             r = new_ref()
-            return k(SRef(("list", sq.elem), r), st2.put(r, ListCell(sq.elem, sq.n, sq.arr)))
+            return k(SRef(("list", sq.elem), r), st2.put(r, ListCell(sq.elem, sq.n, sq.arr, getattr(sq, "setview", None))))
         return self.comprehension(e, st, got)
 
     def ev_GeneratorExp(self, e, st, k):
@@ -487,11 +488,20 @@ class Exec:
             st = st.fact(z3.Implies(n > c0, z3.And(srcidx(jj) >= 0, srcidx(jj) < src.n, c_at(srcidx(jj)),
                                                    arr[jj] == b_at(srcidx(jj)), dstidx(srcidx(jj)) == jj)))
         st = st.fact(z3.Implies(n > 1, srcidx(z3.IntVal(0)) < srcidx(z3.IntVal(1))))
-        return k(SSeq(body.ty, n, arr), st)
+        setview = None
+        if getattr(src, "setview", None) is not None:
+            # the set of elements of the result, as a set builder over the element set of the source
+            from vf.pyvc.spec import PureEval
+            x = S.fresh("x!sb", S.sort_of(src.elem))
+            pe2 = PureEval(self, st, dict(st.env, **{g.target.id: S.wrap(src.elem, x)}), bound=(x,))
+            cond_x = z3.And(src.setview[x], *[ops.truth(st, pe2.ev(c)) for c in g.ifs])
+            setview = S.set_builder_mem((x,), x, cond_x, term_of(pe2.ev(e.elt)))
+        res = SSeq(body.ty, n, arr, setview=setview)
+        return k(res, ops.seq_setview_facts(st, res))
 
     def ev_DictComp(self, e, st, k):
         """{key(x): val(x) for x in seq}: last write wins."""
-        if len(e.generators) != 1 or e.generators[0].ifs: raise Unsupported("dict comprehension form")
+        if len(e.generators) != 1: raise Unsupported("dict comprehension form")
         g = e.generators[0]
         def got(it, st2):
             if isinstance(it, SOpaqueObj):
@@ -506,6 +516,10 @@ class Exec:
             from vf.pyvc.spec import PureEval
             pe = PureEval(self, st3, env)
             kv = pe.ev(e.key)
+            flt = z3.And(*[ops.truth(st3, pe.ev(c)) for c in g.ifs]) if g.ifs else z3.BoolVal(True)
+            flt_at = lambda t: z3.substitute(flt, (i, t))
+            if g.ifs and isinstance(e.value, ast.Call) and getattr(e.value.func, "id", "") in ("dict", "set") and not e.value.args:
+                raise Unsupported("filtered adjacency comprehension")
             if isinstance(e.value, ast.Call) and getattr(e.value.func, "id", "") in ("dict", "set") and not e.value.args:
                 # {x: dict() for x in ...} / {x: set() ...}: an adjacency map; the inner keys have the type of the outer keys
                 ks = S.sort_of(kv.ty)
@@ -523,7 +537,7 @@ class Exec:
             vv = pe.ev(e.value)
             for exc, c in pe.defs:
                 self.vc(f"{self.top_name}.dict_comprehension_defined", st3,
-                        z3.ForAll([i], z3.Implies(z3.And(i >= 0, i < n), c)), f"{exc} inside a dict comprehension")
+                        z3.ForAll([i], z3.Implies(z3.And(i >= 0, i < n, flt), c)), f"{exc} inside a dict comprehension")
             kt, vt = term_of(kv), term_of(vv)
             ks, vs = kt.sort(), vt.sort()
             dom = S.fresh("dc.dom", z3.ArraySort(ks, z3.BoolSort()))
@@ -532,16 +546,22 @@ class Exec:
             key_at = lambda t: z3.substitute(kt, (i, t))
             val_at = lambda t: z3.substitute(vt, (i, t))
             j = z3.Int("j!dc"); kk = z3.Const("k!dc", ks)
-            st3 = st3.fact(z3.ForAll([j], z3.Implies(z3.And(j >= 0, j < n), dom[key_at(j)])))
+            st3 = st3.fact(z3.ForAll([j], z3.Implies(z3.And(j >= 0, j < n, flt_at(j)), dom[key_at(j)])))
             st3 = st3.fact(z3.ForAll([kk], z3.Implies(dom[kk], z3.And(
-                last(kk) >= 0, last(kk) < n, key_at(last(kk)) == kk, val[kk] == val_at(last(kk))))))
-            st3 = st3.fact(z3.ForAll([kk, j], z3.Implies(z3.And(dom[kk], j > last(kk), j < n), key_at(j) != kk)))
+                last(kk) >= 0, last(kk) < n, flt_at(last(kk)), key_at(last(kk)) == kk, val[kk] == val_at(last(kk))))))
+            st3 = st3.fact(z3.ForAll([kk, j], z3.Implies(z3.And(dom[kk], j > last(kk), j < n, flt_at(j)), key_at(j) != kk)))
             r = new_ref()
             return k(SRef(("dict", kv.ty, vv.ty), r), st3.put(r, DictCell(kv.ty, vv.ty, dom, val)))
         return self.ev(g.iter, st, got)
 
     def iter_seq(self, it, st):
         """The sequence a `for` would traverse: (St', SSeq)."""
+        st2, sq = self._iter_seq(it, st)
+        if st2 is not st and getattr(sq, "setview", None) is not None and not isinstance(it, SSeq):
+            st2 = ops.seq_setview_facts(st2, sq)        # a fresh enumeration of a dict / set
+        return st2, sq
+
+    def _iter_seq(self, it, st):
         if isinstance(it, SSeq): return st, it
         if isinstance(it, SClosure) and it.kind == "emptylist": return st, EmptySeq()
         if isinstance(it, SRef):
@@ -562,9 +582,7 @@ class Exec:
             if it.kind == "values":
                 vs = S.sort_of(c.vty)
                 arr = z3.Lambda([i], z3.If(z3.And(i >= 0, i < n), c.val[karr[i]], S.dflt(vs)))
-                x = z3.Const("x!ts", vs); kk = z3.Const("k!ts", S.sort_of(c.kty))
-                sv = z3.Lambda([x], z3.Exists([kk], z3.And(c.dom[kk], c.val[kk] == x)))
-                return st, SSeq(c.vty, n, arr, setview=sv)
+                return st, SSeq(c.vty, n, arr, setview=ops.vals_mem(c.kty, c.vty, c.dom, c.val))
         if isinstance(it, SSetV):
             st, n, karr = ops.set_keyseq(st, it.elem, it.mem)
             return st, SSeq(it.elem, n, self._norm(karr, n, S.sort_of(it.elem)), setview=it.mem)
